@@ -57,6 +57,18 @@ def _persist(tree):
                     + sorted(f"{k.arg}={ast.unparse(k.value)}" for k in c.keywords),
                     "`save_continuation_yaml`: the dump call, positional arguments, keywords (sorted)")
     out += _strlist("saveBody", _body(f), "`save_continuation_yaml` statements")
+    # the path of AST node types from the function body down to the dump call: a single expression
+    # statement, i.e. ONE dump of the WHOLE state per file (not inside a loop / condition / helper)
+    def _path(node, target, acc):
+        if node is target:
+            return acc
+        for ch in ast.iter_child_nodes(node):
+            r = _path(ch, target, acc + [type(ch).__name__])
+            if r is not None:
+                return r
+        return None
+    out += _strlist("saveCallContext", _path(f, c, []) or ["not found"],
+                    "AST path from `save_continuation_yaml` to its dump call")
     f = find_func(tree, "load_continuation_yaml")
     out += _strlist("loadBody", _body(f), "`load_continuation_yaml` statements")
     # --- generate(): where the file is read and written
